@@ -635,3 +635,70 @@ def treeseq_readonly(ctx, P, rule="TS-READONLY"):
                            "%s re-initialises / frees the object's own tree sequence" % fn.name)
     ctx.ob(rule, "instances", n >= 3, "python/_tskitmodule.c", "%d uses of a live tree sequence's tables / lifecycle calls analysed" % n)
     return n
+
+
+def flags_consumed(ctx, P, funcs=None, rule="OPTION-CONSUMED"):
+    """Every flag a module method can set is tested somewhere in the library code that the method hands `options` to."""
+    ctx.rule(rule, "every library flag that a module method sets from a keyword is tested (`options & FLAG`) somewhere in the call "
+                   "closure of the libtskit function(s) the method passes its options to (targets of function-pointer parameters are "
+                   "resolved through the method's callers): a flag nobody reads is a documented option silently ignored")
+    got = extract_options(P)
+    tu = P.tus["module"]
+    lib = {}
+    for k in ("core", "tables", "trees", "genotypes", "convert", "stats", "haplotype_matching"):
+        for f in P.tus[k].funcs.values():
+            lib.setdefault(f.name, (P.tus[k], f))
+    closure_cache = {}
+
+    def closure_text(name):
+        if name in closure_cache:
+            return closure_cache[name]
+        seen, st, txt = set(), [name], []
+        while st:
+            n = st.pop()
+            if n in seen or n not in lib:
+                continue
+            seen.add(n)
+            t, f = lib[n]
+            txt.append(t.src(f.body))
+            for c in calls(f.body):
+                cn = callee(c)
+                if cn and cn not in seen:
+                    st.append(cn)
+        closure_cache[name] = "\n".join(txt)
+        return closure_cache[name]
+    n = 0
+    for fname, ents in sorted(got.items()):
+        if funcs is not None and fname not in funcs:
+            continue
+        fn = tu.funcs[fname]
+        targets = set()
+        for c in calls(fn.body):
+            cn = callee(c)
+            if cn and cn in lib and any("options" in estr(a) for a in c.kids[1:]):
+                targets.add(cn)
+            if cn is None:
+                f0 = strip(c.kids[0])
+                if f0 is not None and f0.k == "DeclRefExpr" and f0.refkind == "ParmVarDecl":
+                    idx = [j for j, p in enumerate(fn.params) if p.name == f0.ref]
+                    for g in tu.funcs.values():
+                        for cc in calls(g.body):
+                            if callee(cc) == fname and idx and idx[0] < len(cc.kids) - 1:
+                                a = strip(cc.kids[1 + idx[0]])
+                                if a is not None and a.k == "DeclRefExpr" and a.refkind == "FunctionDecl":
+                                    targets.add(a.ref)
+        if not targets:
+            continue
+        for e in ents:
+            flag = e["flag"]
+            users = [tgt for tgt in sorted(targets) if re.search(r"&\s*\(?[^;]*\b%s\b" % re.escape(flag), closure_text(tgt)) is not None]
+            n += 1
+            # a generic method serves several statistics: the keyword must matter for at least one of them
+            ok = bool(users) or (fname, flag) in FLAG_UNUSED_OK
+            ctx.ob(rule, "%s|%s" % (fname, flag), ok, tu.loc(fn.node),
+                   "%s is tested in the closure of %s" % (flag, users[:3]) if users else
+                   "%s can be set by %s but nothing reachable from %s tests it: the option has no effect" % (flag, fname, sorted(targets)[:4]))
+    return n
+
+
+FLAG_UNUSED_OK = {}
